@@ -360,6 +360,9 @@ def gen_build_case(rng, ring_with_restraint=False, rw_nonunit=False):
             a, b = 0, (rng.randint(1, mt['nres'] - 2) if cyc else mt['nres'] - 1)
             d = round(rng.uniform(0.4, max(0.45, 0.3 * (min(b, mt['nres'] - b) if cyc else b))), 3)
             tol = rng.choice([0.0, 0.1])
+            if cyc:
+                # together with the ring closure: keep the pair restraint loose enough for the walk to meet both
+                d, tol = round(rng.uniform(0.4, 0.5), 3), 0.15
             lines += ['[ distance_restraints ]', f'{a} {b} {d} {tol}']
             decl.append({'kind': 'dist', 'a': a, 'b': b, 'd': d, 'tol': tol, 'mols': [lo, hi]})
     return {'moltypes': mts, 'molecules': mols, 'box': box, 'build': '\n'.join(lines) + '\n', 'decl': decl,
@@ -534,6 +537,7 @@ def run(ctx):
         ctx.note(str(exc)[:800])
         ctx.broken.append('correspondence:C07 model evaluation failed')
     milestone_cases(ctx, ctx.n(300, 3000))
+    persistence_cases(ctx, ctx.n(10, 50))
     ring_cases(ctx)
     bcases = [c for _, c in core.corpus_cases('C07')]
     # a molecule declared cyclic that also carries a build-file distance restraint: always exercised
@@ -550,13 +554,90 @@ def run(ctx):
         if not rec['ok']:
             if 'RunTimeout' in (rec['exc'] or ''):
                 timeouts += 1
-            ctx.note(f"gen_coords with build file did not finish: {rec['exc']}")
+            ctx.note(f"gen_coords with build file did not finish: {rec['exc']} -- build file: {case['build']!r} cycles {case['cycles']} "
+                     f"shape {case['moltypes'][0]['shape']} nres {case['moltypes'][0]['nres']} molecules {case['molecules']}")
         ctx.feature('e2e_ok' if rec['ok'] else 'e2e_failed')
         ctx.feature('e2e_restraint_checks', rec['selected'])
         for b in rec['bad'][:2]:
             ctx.violation('spec', f"C07 fails on the implementation: {b}", {'case': case, 'failure': b})
         ctx.case(json.dumps([case['build'], case['molecules'], case['seed']]), nontrivial=rec['ok'] and rec['selected'] > 0,
                  sample={'build_file': case['build'], 'molecules': case['molecules'], 'checks': rec['selected']})
+
+
+def persistence_cases(ctx, n):
+    """[ persistence_length ] batches: every sampled end-to-end distance lies between one (average) step and the contour
+    length of ITS OWN path.  Two batches of one molecule type with the same model, persistence length and number of steps
+    but paths through residues of different size; the restraints are read back where the sampling leaves them."""
+    rng = ctx.rng
+    for _ in range(n):
+        nres = rng.randint(8, 12)
+        half = nres // 2
+        # two residue kinds of clearly different size: RA one small bead, RB three big beads in a row
+        small = min(systems.ATOMTYPES, key=lambda t: systems.ATOMTYPES[t][0])
+        big = max(systems.ATOMTYPES, key=lambda t: systems.ATOMTYPES[t][0])
+        first_big = rng.random() < 0.5
+        atoms, bonds, firsts, idx = [], [], [], 1
+        for r in range(nres):
+            is_big = (r < half) == first_big
+            names = ['L1', 'L2', 'L3'] if is_big else ['S']
+            firsts.append(idx)
+            for j, nm in enumerate(names):
+                atoms.append({'idx': idx, 'atype': big if is_big else small, 'resid': r + 1, 'res': r, 'resname': 'RB' if is_big else 'RA',
+                              'name': nm, 'cgnr': idx, 'charge': 0.0, 'mass': systems.ATOMTYPES[big if is_big else small][1]})
+                if j > 0:
+                    bonds.append((idx - 1, idx))
+                idx += 1
+        bonds += [(firsts[r], firsts[r + 1]) for r in range(nres - 1)]
+        mt = {'name': 'MA', 'nres': nres, 'shape': 'path', 'resnames': [a['resname'] for a in atoms if a['idx'] in firsts],
+              'redges': [(r, r + 1) for r in range(nres - 1)], 'atoms': atoms, 'bonds': bonds}
+        k = rng.randint(3, half - 1)
+        lp = rng.choice([1.0, 2.0, 5.0])
+        batches = [(0, 3, 0, k), (3, 6, nres - 1, nres - 1 - k)]          # (mol lo, mol hi, start, stop): through RA / through RB
+        if rng.random() < 0.5:
+            batches.reverse()
+        build = ''.join(f'[ molecule ]\nMA {lo} {hi}\n[ persistence_length ]\nWCM {lp} {a} {b}\n' for lo, hi, a, b in batches)
+        got = {}
+
+        def wrap_sample(real):
+            def sample(topology, nonbond_matrix, seed=None):
+                out = real(topology, nonbond_matrix, seed=seed)
+                for lo0, hi, a, b in batches:
+                    for lo in range(lo0, hi):
+                        mol = topology.molecules[lo]
+                        path = list(range(a, b + 1)) if a < b else list(range(a, b - 1, -1))
+                        steps = [float(nonbond_matrix.get_interaction(lo, lo, x, y)[0]) for x, y in zip(path[:-1], path[1:])]
+                        entries = [e for e in mol.nodes[b].get('distance_restraints', [])]
+                        got[(lo, a, b)] = {'contour': sum(steps), 'avg': sum(steps) / len(steps),
+                                           'entries': [[int(e[0]), float(e[1]), float(e[2])] for e in entries]}
+                raise Probe()
+            return sample
+        top = systems.top_text([mt], [('MA', 6)])
+        with systems.Workdir() as wd:
+            res = systems.run_gen_coords(wd, top, seed=rng.randrange(10 ** 6), files={'opts.bld': build}, build=['opts.bld'],
+                                         box=np.array([12.0, 12.0, 12.0]), timeout=40,
+                                         hooks={'polyply.src.build_system:sample_end_to_end_distances': wrap_sample})
+        ctx.case(('persistence', build, nres), nontrivial=True, sample={'build_file': build, 'residues': nres})
+        ctx.feature('persistence_batches')
+        rep = {'persistence_case': {'moltype': mt, 'build': build}}
+        if not got:
+            if res.get('exc_type') != 'RunTimeout':
+                ctx.violation('spec', f"gen_coords with two [ persistence_length ] batches stops before the distances are sampled: "
+                              f"{res.get('exc_type')}: {str(res.get('exception'))[:150]}", rep)
+            continue
+        for (lo, a, b), o in got.items():
+            # the entry of the stop residue against the start residue: (reference, upper, lower) with lower = d (tolerance 0)
+            mine = [e for e in o['entries'] if e[0] == a]
+            if len(mine) != 1:
+                ctx.violation('spec', f"persistence batch of molecule {lo} ({a} -> {b}): the stop residue carries {len(mine)} restraints against the start residue", rep)
+                continue
+            d = mine[0][2]
+            if not (o['avg'] - 1e-9 <= d < o['contour'] + 1e-9):
+                ctx.violation('spec', f"persistence batch of molecule {lo} ({a} -> {b}): sampled end-to-end distance {d:.4f} nm outside "
+                              f"[one step {o['avg']:.4f}, contour length {o['contour']:.4f}) of its own path", rep)
+
+
+class Probe(Exception):
+    pass
 
 
 def face_step(c, mode, kind, prm, start, vec, box=6.0):
